@@ -50,8 +50,8 @@ impl RelayConfig {
 // @extra-items-here (helpers a change newly calls are spliced in above this line)
 
 #[derive(Clone, Copy, Debug, PartialEq, Eq)]
-enum Op { Insert(usize, u8, u16), Remove(usize, u8), Extend(usize, usize), Token(usize, u8), Eq(usize, usize) }
-type Model = BTreeMap<u8, (u16, Option<u8>)>;   // url -> (quic port, token id)
+enum Op { Insert(usize, u8, u16), InsertAlias(usize, u8), Remove(usize, u8), Extend(usize, usize), Token(usize, u8), Eq(usize, usize) }
+type Model = BTreeMap<u8, (u8, u16, Option<u8>)>;   // url -> (the url inside the configuration, quic port, token id)
 
 fn cfg(u: u8, port: u16) -> Arc<RelayConfig> { Arc::new(RelayConfig::new(RelayUrl(u), Some(RelayQuicConfig { port }))) }
 fn snapshot(m: &RelayMap) -> Option<Model> {
@@ -60,8 +60,7 @@ fn snapshot(m: &RelayMap) -> Option<Model> {
     for u in 0u8..4 {
         if m.contains(&RelayUrl(u)) {
             let c = m.get(&RelayUrl(u))?;
-            if c.url != RelayUrl(u) { return None; }
-            out.insert(u, (c.quic.as_ref().map(|q| q.port).unwrap_or(0), c.auth_token.as_ref().map(|t| t.as_bytes()[0])));
+            out.insert(u, (c.url.0, c.quic.as_ref().map(|q| q.port).unwrap_or(0), c.auth_token.as_ref().map(|t| t.as_bytes()[0])));
         } else if m.get(&RelayUrl(u)).is_some() { return None; }
     }
     if m.len() != out.len() || m.is_empty() != out.is_empty() { return None; }
@@ -82,6 +81,8 @@ fn run_seq(seq: Vec<Op>, shared: bool, progress: Arc<std::sync::atomic::AtomicUs
         progress.store(k, Ordering::SeqCst);
         let r = match *op {
             Op::Insert(h, u, p) => { hs[h].insert(RelayUrl(u), cfg(u, p)); None }
+            // the key is what the caller says; the configuration may name another URL (insert takes both)
+            Op::InsertAlias(h, u) => { hs[h].insert(RelayUrl(u), cfg(u ^ 1, 3)); None }
             Op::Remove(h, u) => { hs[h].remove(&RelayUrl(u)); None }
             Op::Extend(a, b) => { hs[a].extend(&hs[b]); None }
             Op::Token(h, t) => { let _ = hs[h].clone().with_auth_token((t as char).to_string()); None }
@@ -89,10 +90,11 @@ fn run_seq(seq: Vec<Op>, shared: bool, progress: Arc<std::sync::atomic::AtomicUs
         };
         // the model: plain maps
         match *op {
-            Op::Insert(h, u, p) => { models[st(h)].insert(u, (p, None)); }
+            Op::Insert(h, u, p) => { models[st(h)].insert(u, (u, p, None)); }
+            Op::InsertAlias(h, u) => { models[st(h)].insert(u, (u ^ 1, 3, None)); }
             Op::Remove(h, u) => { models[st(h)].remove(&u); }
             Op::Extend(a, b) => { let src = models[st(b)].clone(); models[st(a)].extend(src); }
-            Op::Token(h, t) => { for v in models[st(h)].values_mut() { v.1 = Some(t); } }
+            Op::Token(h, t) => { for v in models[st(h)].values_mut() { v.2 = Some(t); } }
             Op::Eq(a, b) => { if r != Some(models[st(a)] == models[st(b)]) { out.push(("behaves-as-map", "other", format!("op #{k} {:?} returned {:?}", op, r))); } }
         }
         for h in 0..2 {
@@ -113,7 +115,7 @@ fn main() {
     let max_ops: usize = args.get(1).and_then(|s| s.parse().ok()).unwrap_or(3);
     let only: Option<String> = args.get(3).cloned();
     let mut ops = Vec::new();
-    for h in 0..2 { for u in 0..2u8 { for p in [1u16, 2] { ops.push(Op::Insert(h, u, p)); } ops.push(Op::Remove(h, u)); } ops.push(Op::Token(h, b'x' + h as u8)); }
+    for h in 0..2 { for u in 0..2u8 { for p in [1u16, 2] { ops.push(Op::Insert(h, u, p)); } ops.push(Op::InsertAlias(h, u)); ops.push(Op::Remove(h, u)); } ops.push(Op::Token(h, b'x' + h as u8)); }
     for a in 0..2 { for b in 0..2 { ops.push(Op::Extend(a, b)); ops.push(Op::Eq(a, b)); } }
     let mut evaluations = 0u64; let mut nontrivial = 0u64;
     let mut fail_counts: BTreeMap<(&'static str, &'static str), u64> = BTreeMap::new();
